@@ -220,7 +220,12 @@ func collectVisibleValue(db *NoKV.DB, iter utils.Iterator, key []byte, readTs ui
 			return nil, false, err
 		}
 		switch write.Kind {
-		case pb.Mutation_Delete, pb.Mutation_Rollback:
+		case pb.Mutation_Rollback, pb.Mutation_Lock:
+			// No data at this record; an older committed value may still be
+			// visible (same rule as percolator.Reader.GetValue).
+			iter.Next()
+			continue
+		case pb.Mutation_Delete:
 			advanceToNextUserKey(iter, key)
 			return nil, false, nil
 		default:
@@ -235,6 +240,10 @@ func collectVisibleValue(db *NoKV.DB, iter utils.Iterator, key []byte, readTs ui
 						continue
 					}
 					return nil, false, err
+				}
+				if entryVal.Meta&kv.BitDelete > 0 || entryVal.Value == nil {
+					advanceToNextUserKey(iter, key)
+					return nil, false, nil
 				}
 				value = entryVal.Value
 			}
